@@ -22,6 +22,7 @@ type c04Case struct {
 	HasC     bool
 	Val      string
 	Result   string // lib | int | strings | wrongstruct
+	Accept   string // reply codec the caller asks for: "" | json | xml | form | unreg (an id nobody registered: the request is to be ignored)
 }
 
 var c04Causes = []string{
@@ -73,6 +74,8 @@ func genC04(t *rapid.T, protos []string) c04Case {
 	c.Result = "lib"
 	if c.Cause == "result-mismatch" {
 		c.Result = rapid.SampledFrom([]string{"int", "strings", "wrongstruct"}).Draw(t, "result")
+	} else {
+		c.Accept = rapid.SampledFrom([]string{"", "", "", "json", "xml", "form", "unreg", "unreg"}).Draw(t, "accept")
 	}
 	return c
 }
@@ -279,6 +282,15 @@ func runC04(c c04Case) (string, vt.StatusTriple) {
 	case strings.HasPrefix(c.Cause, "rveto-"):
 		settings = append(settings, erpc.WithAddMeta("Rveto", strings.TrimPrefix(c.Cause, "rveto-")))
 	}
+	wantReplyCodec := codecID(c.Codec)
+	switch c.Accept {
+	case "":
+	case "unreg":
+		settings = append(settings, erpc.WithAcceptBodyCodec(200)) // nobody registered it: ignored
+	default:
+		settings = append(settings, erpc.WithAcceptBodyCodec(codecID(c.Accept)))
+		wantReplyCodec = codecID(c.Accept)
+	}
 	result := c.newResult()
 	var cmd erpc.CallCmd
 	if c.Cause == "conn-closed" {
@@ -316,6 +328,9 @@ func runC04(c c04Case) (string, vt.StatusTriple) {
 			r, _ := result.(*LibRes)
 			if r == nil || r.Val != *e.resultVal || r.Rid != "c04" {
 				return fmt.Sprintf("status OK but result %+v, want Val=%q", result, *e.resultVal), got
+			}
+			if got := cmd.InputBodyCodec(); got != wantReplyCodec && c.Proto != "http" {
+				return fmt.Sprintf("the reply body came in codec %d, want %d (request codec %q, accept %q)", got, wantReplyCodec, c.Codec, c.Accept), vt.StatusTriple{}
 			}
 		}
 	case e.anyNonOK:
@@ -377,7 +392,7 @@ func (c c04Case) knownKey() string {
 	return ""
 }
 
-const ruleC04 = "one call per case: cause in {handler OK, handler status (any int32 code, any msg/cause bytes within the codec's text domain), unknown route, undecodable request body, handler panic, server-side veto at each pre-handler stage, caller-side veto before writing and at each reply-reading stage, connection cut while the handler runs, result-type mismatch} x protocol {raw,json,pb,http,ws+json,ws+pb over the real websocket upgrade} x body codec {json,xml,form}; oracle: small model of the expected (code,msg,cause) at accessor level, decodability of a mismatching result decided by the codec alone; non-trivial = expected outcome is not OK or the result type mismatches; distinct by the case"
+const ruleC04 = "one call per case: cause in {handler OK, handler status (any int32 code, any msg/cause bytes within the codec's text domain), unknown route, undecodable request body, handler panic, server-side veto at each pre-handler stage, caller-side veto before writing and at each reply-reading stage, connection cut while the handler runs, result-type mismatch} x protocol {raw,json,pb,http,ws+json,ws+pb over the real websocket upgrade} x body codec {json,xml,form} x reply codec asked for {none, json, xml, form, an unregistered id}; oracle: small model of the expected (code,msg,cause) at accessor level, decodability of a mismatching result decided by the codec alone; non-trivial = expected outcome is not OK or the result type mismatches; distinct by the case"
 
 func TestC04Status(t *testing.T) {
 	rec := vt.NewRec(t, "C04", "status", ruleC04)
